@@ -2,7 +2,7 @@
 # tools/import_seed.sh <cNN> <m3|m4>...: copies a sub-agent's seeded change from /tmp/seed2 into seeded/ and evaluates it at the quick tier
 c="$1"; shift
 C=$(echo "$c" | tr c C)
-rel() { case "$1" in C01|C02|C03|C04) echo "C01 C02 C03 C04";; C08) echo "C08 C10";; C10) echo "C10 C08";; *) echo "$1";; esac; }
+rel() { case "$1" in C01|C02|C03|C04) echo "C01 C02 C03 C04";; C08) echo "C08 C10";; C10) echo "C10 C08";; C13) echo "C13 C14";; *) echo "$1";; esac; }
 for m in "$@"; do
   d=/verif/seeded/$C-$m; mkdir -p "$d"
   src=${SEEDSRC:-/tmp/seed2}; cp $src/$c/$m/patch.diff $src/$c/$m/README.md $src/$c/$m/demo.txt $src/$c/$m/*_test.go "$d/" 2>/dev/null
